@@ -8,7 +8,7 @@
     operations the wrapper calls on them (Section variables).  What is modelled
     statement by statement is the wrapper: memory.Pool.Get (pop or construct,
     reset with the new input), the run, the deferred cleanup (reset to
-    nil/io.Discard, Put only when that reset succeeded) and the growth loop of
+    nil/io.Discard, Put only after a clean run whose reset succeeded) and the growth loop of
     dst in Decode (cap 0 -> 2*len(src), doubling).
 
     sync.Pool gives no guarantee about which pooled object Get returns, nor
@@ -99,10 +99,13 @@ Section Wrappers.
     let '(o, r1, _) := grow_loop fuel r (firstn 0 dst) cap in
     match o with
     | Hang => (Hang, pool1)  (* the call never returns: the deferred function never runs *)
-    | Done _ _ =>
-        (* defer: r.input.Reset(nil); if r.reader.Reset(nil) == nil { Put(r) } *)
+    | Done _ run_err =>
+        (* defer: r.input.Reset(nil); if err := r.reader.Reset(nil); err == nil && clean { Put(r) }
+           clean = the read loop ended with io.EOF: a reader whose stream ended with an
+           error may keep state of the failed stream across Reset (brotli keeps
+           unconsumed input after "excessive input") and is dropped *)
         let '(r2, e2) := rd_reset r1 None in
-        (o, if e2 then pool1 else r2 :: pool1)
+        (o, if e2 || run_err then pool1 else r2 :: pool1)
     end.
 
   Definition decode (pool : list R) (pick : option nat) (dst src : bytes) : outcome * list R :=
